@@ -18,6 +18,9 @@ The driver maps every view program onto tasks of the abstract discipline model `
 * `abort r b` — the response body of r is dropped unpolled while b's arena is current: r's root dies (OWNER dangling =
   none); r's response is then only judged by the harness oracle (`r<k>:aborted`); an already dispatched action future of r
   still runs (unwrapped); `on_cleanup`s of r under a foreign arena = F-C20-4.
+* `X`/`Y` bodies (user stream behind the app stream inside the body's `Sandboxed`, `reactive_graph::spawn` tasks) =
+  sandboxed-only tasks reading the arena (`C20_sandboxed_arena`); `Z` = the NOT wrapped task of a Resource / AsyncDerived
+  running and re-running its fetcher, each part under `Step.enter` (guarded: `GuardedOk`, covered by `C20_wrapped_isolated`).
 * leaf kinds: resources of every family, `spawn_local_scoped`, isomorphic effects, arena reads in child owners = WRAPPED tasks;
   `Action::dispatch` future = UNWRAPPED, sandboxed task (`reactive_graph::spawn`), F-C20-3.
 * `poll i` — a spawned task of some request; every one of them is wrapped, so by
@@ -43,6 +46,9 @@ inductive P where
   | D (g a : Nat)
   | I (a : Nat)
   | A (g a : Nat)
+  | X (v g a : Nat)
+  | Y (v g a : Nat)
+  | Z (kv g1 t g2 ls la lb lr : Nat)
   | F (n id : Nat)
   | Q (cs : List P)
 deriving Inhabited
@@ -111,6 +117,32 @@ partial def parseP (depth : Nat) (cs : List Char) : Option (P × List Char) :=
     let (a, r) ← takeNum r
     pure (.A g a, r)
   | 'I' :: r => do let (n, r) ← takeNum r; pure (.I n, r)
+  | 'X' :: r => do
+    let (v, r) ← takeNum r
+    if v > 1 then none else
+    let r ← eat '.' r
+    let (g, r) ← takeNum r; let r ← eat '.' r
+    let (a, r) ← takeNum r
+    pure (.X v g a, r)
+  | 'Y' :: r => do
+    let (v, r) ← takeNum r
+    if v > 1 then none else
+    let r ← eat '.' r
+    let (g, r) ← takeNum r; let r ← eat '.' r
+    let (a, r) ← takeNum r
+    pure (.Y v g a, r)
+  | 'Z' :: r => do
+    let (kv, r) ← takeNum r
+    if kv / 10 > 3 || kv % 10 > 2 then none else
+    let r ← eat '.' r
+    let (g1, r) ← takeNum r; let r ← eat '.' r
+    let (t, r) ← takeNum r; let r ← eat '.' r
+    let (g2, r) ← takeNum r; let r ← eat '.' r
+    let (a, r) ← takeNum r; let r ← eat '.' r
+    let (b, r) ← takeNum r; let r ← eat '.' r
+    let (c, r) ← takeNum r; let r ← eat '.' r
+    let (d, r) ← takeNum r
+    pure (.Z kv g1 t g2 a b c d, r)
   | 'F' :: r => do
     let (n, r) ← takeNum r; let r ← eat '.' r
     let (a, r) ← takeNum r
@@ -143,15 +175,20 @@ partial def gatesOf : P → List Nat
   | .T g _ => [g]
   | .D g _ => [g]
   | .A g _ => [g]
+  | .X _ g _ => [g]
+  | .Y _ g _ => [g]
+  | .Z _ g1 t g2 .. => [g1, t, g2]
   | .V _ c => gatesOf c
   | .U c => gatesOf c
   | .W _ c => gatesOf c
   | .Q cs => cs.flatMap gatesOf
   | _ => []
 
-/-- gates nothing on the server waits for (`LocalResource`'s fetcher is never run there) -/
+/-- gates nothing on the server waits for (`LocalResource`'s fetcher is never run there; the first run of a
+re-running fetcher may be thrown away, its trigger gate may be unused) -/
 partial def idleGates : P → List Nat
   | .O 7 g _ _ => [g]
+  | .Z _ g1 t _ .. => [g1, t]
   | .S _ _ _ c => idleGates c
   | .V _ c => idleGates c
   | .U c => idleGates c
@@ -202,6 +239,11 @@ structure Rec where
   site : Option Nat := none
   /-- `site`: is there a Suspense below (whose pending boundary dies with the owner)? -/
   hasSusp : Bool := false
+  /-- `aread`: does the body enter an owner (`ScopedFuture` / `Owner::with`) or is it only inside `Sandboxed`? -/
+  wrapped : Bool := true
+  /-- `tag`: run by a task that is not wrapped but enters the owner for this step (`Step.enter`): the spawned task of
+  an async derived value running / re-running its fetcher -/
+  guarded : Bool := false
 
 /-- a Suspend outside Suspense: a chunk of the response stream -/
 structure Node where
@@ -306,6 +348,23 @@ partial def compile (base r : Nat) (io : Bool) (ctx : Ctx) (acc : CAcc) : P → 
     -- arena items of a child owner read inside the Suspend's ScopedFuture
     let ctx := { ctx with need := ctx.need ++ [g] }
     { acc with seen := acc.seen ++ [g], recs := acc.recs ++ [mkRec a .aread ctx] }
+  | .X v g a =>
+    -- a step of the user stream behind the app stream, inside the body's `Sandboxed` (`poll_next` sets the arena);
+    -- variant 1 additionally enters a child owner: either way it sees its own arena
+    let ctx := { ctx with need := ctx.need ++ [g] }
+    { acc with recs := acc.recs ++ [{ mkRec a .aread ctx with wrapped := v == 1 }] }
+  | .Y v g a =>
+    -- `reactive_graph::spawn` = `Sandboxed` future (`poll` sets the arena)
+    let ctx := { ctx with need := ctx.need ++ [g] }
+    { acc with seen := acc.seen ++ [g], recs := acc.recs ++ [{ mkRec a .aread ctx with wrapped := v == 1 }] }
+  | .Z _ g1 t g2 ls la lb lr =>
+    -- every run of the fetcher, first or re-run, from the constructor or from the spawned task:
+    -- `owner.with_cleanup(|| subscriber.with_observer(|| ScopedFuture::new(fun())))` — sync part under `Owner::with`,
+    -- async part inside the ScopedFuture
+    let ctx2 := { ctx with need := ctx.need ++ [g2] }
+    { acc with seen := acc.seen ++ [g1, t, g2],
+               recs := acc.recs ++ [{ mkRec ls .tag ctx with guarded := true }, { mkRec la .tag ctx with guarded := true },
+                                    { mkRec lb .tag ctx2 with guarded := true }, mkRec lr .tag ctx2] }
   | .Q cs => cs.foldl (compile base r io ctx) acc
 
 /-! ### driver state -/
@@ -315,6 +374,7 @@ structure RQ where
   gates : List Nat
   /-- gates the response waits for -/
   endGates : List Nat
+  old : Bool := false
   recs : List Rec
   nodes : List Node
   resolved : List Nat := []
@@ -358,7 +418,8 @@ def resolveNodes (q : RQ) (atStart : Bool) : RQ :=
     let parentNow := match n.parent with
       | some p => newly.contains p
       | none => atStart
-    let reached := !q.io || n.seen.all fun g => q.fired.contains g
+    -- (the exact moment only matters for the pre-repair table, whose leaves see the ambient owner of that moment)
+    let reached := !q.old || !q.io || n.seen.all fun g => q.fired.contains g
     if parentOk && q.fired.contains n.gate && (reached || parentNow) then (res ++ [n.gate], newly ++ [n.gate])
     else (res, newly)
   { q with resolved := res }
@@ -382,8 +443,12 @@ def runEnabled (d : DS) (r : Nat) (q : RQ) (atStart : Bool := false) : DS × RQ 
       let cap : Amb := { owner := some rec.scope, observer := none, arena := some r }
       match rec.kind with
       | .tag =>
-        (d.exec { req := r, captured := cap, wrapped := true, sandboxed := true, steps := [.simple (.readCtx rec.id)] },
-          out ++ [{ rec with done := true }])
+        let t : Task :=
+          if rec.guarded then
+            { req := r, captured := { arena := some r }, wrapped := false, sandboxed := true,
+              steps := [.enter rec.scope none [.readCtx rec.id]] }
+          else { req := r, captured := cap, wrapped := true, sandboxed := true, steps := [.simple (.readCtx rec.id)] }
+        (d.exec t, out ++ [{ rec with done := true }])
       | .exposed =>
         let d := d.exec { req := r, captured := cap, wrapped := false, sandboxed := true, steps := [.simple (.readCtx rec.id)] }
         let bad := match d.st.mem.log.getLast? with
@@ -395,7 +460,7 @@ def runEnabled (d : DS) (r : Nat) (q : RQ) (atStart : Bool := false) : DS × RQ 
         let foreign := d.st.amb.owner != some q.root
         ({ d with siteBad := d.siteBad || (foreign && rec.hasSusp) }, out ++ [{ rec with done := true }])
       | .aread =>
-        (d.exec { req := r, captured := cap, wrapped := true, sandboxed := true, steps := [.simple (.readAmb rec.id)] },
+        (d.exec { req := r, captured := cap, wrapped := rec.wrapped, sandboxed := true, steps := [.simple (.readAmb rec.id)] },
           out ++ [{ rec with done := true }])
       | .action =>
         -- the action's future: `reactive_graph::spawn` (Sandboxed, no ScopedFuture): reads the ambient owner
@@ -520,7 +585,7 @@ def step (d : DS) (line : String) : DS × String :=
       let root := d.world.owners.length
       let acc := compile (root + 1) r (mode == "io") { scope := root, old := d.old } {} p
       let w : World := { d.world with owners := d.world.owners ++ [{ req := r, parent := none, arena := r }] ++ acc.owners }
-      let q : RQ := { io := mode == "io", gates := gatesOf p, endGates := (gatesOf p).filter (fun g => !(idleGates p).contains g), recs := acc.recs, nodes := acc.nodes, root := root,
+      let q : RQ := { io := mode == "io", gates := gatesOf p, endGates := (gatesOf p).filter (fun g => !(idleGates p).contains g), old := d.old, recs := acc.recs, nodes := acc.nodes, root := root,
                       provides := (root, r * 1000) :: acc.provides }
       ({ d with world := w, reqs := d.reqs ++ [q] }, "ok")
     | _, _ => (d, "bad-op")
